@@ -97,7 +97,7 @@ def main():
     hooks = [l.split()[0] for l in hook_commits if 'verif hook' in l]
     m = {
         'version': 1,
-        'setup_cmd': './check build dbg simd lessslow fast rel',
+        'setup_cmd': './check build dbg simd lessslow fast rel avx2 sse42',
         'hooks': {
             'guard': 'cargo feature hsivonen_encoding_rs_verif',
             'enable': 'the harness crate depends on encoding_rs = { path = "/repo", features = ["hsivonen_encoding_rs_verif"] }; every ./check invocation rebuilds incrementally from /repo\'s working tree',
